@@ -4,6 +4,7 @@
    back; wrong key or AD: reduction to the AEAD opening the ciphertext). *)
 From Coq Require Import String Ascii List Arith NArith Bool Lia ZifyN ZifyNat ZifyBool.
 From Tink Require Import Bytes UntrustedConsts Untrusted UntrustedSpec UntrustedProofs Secrets SecretsProofs SecretsWireProofs.
+From Tink Require UntrustedPrefix5Proofs.
 Import ListNotations.
 Open Scope list_scope.
 Open Scope N_scope.
@@ -599,49 +600,104 @@ Qed.
 End Encrypted2.
 
 (* ------------------------------------------------------------------ *)
-(* REFUTED (finding, reported; the model transcribes the code as it is): a
-   composite ML-DSA PUBLIC key can hold a classical PRIVATE key.
-   compositemldsa.NewPublicKey only compares classicalKey.Parameters() with
-   the expected parameters, which the private key of the same parameters
-   satisfies; parseClassicalPublicKey parses the nested key data with the
-   parser of its own type URL.  Every label is ASYMMETRIC_PUBLIC, the
-   serializer writes ASYMMETRIC_PUBLIC: the no-secrets import accepts the
-   keyset and WriteWithNoSecrets writes the handle - private seed included
-   (it is part of the key value, which the writer emits).               *)
+(* A composite ML-DSA PUBLIC key the parser accepts holds a classical PUBLIC
+   key (since /repo bcdec3e; before it NewPublicKey only compared the
+   classical key's parameters, which a private key of the same parameters
+   satisfies, so that a "public" key could carry - and WriteWithNoSecrets
+   write out - a private seed: finding composite_public_key_carries_private_key). *)
 (* ------------------------------------------------------------------ *)
+Definition classical_public_kind (d : pkd) : bool :=
+  match d with
+  | PEd25519Pub | PEcdsaPub _ _ _ _ | PRsaPssPub _ _ _ _ | PRsaPkcs1Pub _ _ _ => true
+  | _ => false
+  end.
+
+Section CompositePublic.
+Variable L : stdlib.
+
+Ltac pub_done :=
+  cbn [classical_public_kind]; let K := fresh in intros K; try discriminate K;
+  match goal with H : negb (kd_mat _ =? km_public) = false |- _ => apply negb_false_iff, N.eqb_eq in H; exact H end.
+
+Ltac pubk :=
+  repeat match goal with
+  | |- (if ?c then _ else _) = Ok _ -> _ => let C := fresh "C" in destruct c eqn:C
+  | |- okb _ _ = Ok _ -> _ => let H := fresh in intros H; apply okb_ok in H; destruct H as [_ ->]; pub_done
+  | |- bind _ _ = Ok _ -> _ =>
+      let H := fresh in let a := fresh in intros H; apply bind_ok in H; destruct H as [a [_ H]]; revert H; cbv beta
+  | |- Ok _ = Ok _ -> _ => let H := fresh in intros H; inversion H; pub_done
+  | |- Err = Ok _ -> _ => discriminate
+  | |- Panic = Ok _ -> _ => discriminate
+  | |- (let (_, _) := ?p in _) = Ok _ -> _ => destruct p
+  | |- match ?o with Some _ => _ | None => _ end = Ok _ -> _ => destruct o
+  end.
+
+(* a classical public key object comes from key data labelled ASYMMETRIC_PUBLIC *)
+Lemma classical_public_kind_label kd p i d : parse_key_base L kd p i = Ok d ->
+  classical_public_kind d = true -> kd_mat kd = km_public.
+Proof.
+  unfold Untrusted.parse_key_base, parse_key_more, parse_ed25519_pub, parse_ed25519_priv, parse_rsa_priv,
+    parse_ecies_pub, parse_ecies_priv, parse_hpke_pub, parse_hpke_priv,
+    parse_stream_gcm_hkdf, parse_stream_ctr_hmac, parse_jwt_hmac, parse_jwt_ecdsa_pub, parse_jwt_ecdsa_priv,
+    parse_jwt_rsa_pub, parse_mldsa_pub, parse_slhdsa_pub, parse_slhdsa_priv,
+    parse_jwt_rsa_priv, parse_jwt_mldsa_pub, parse_mldsa_priv, parse_jwt_mldsa_priv, ed25519_from_seed.
+  cbv zeta. pubk.
+Qed.
+
+Theorem composite_public_key_holds_public_classical_key kd prefix idreq d :
+  parse_composite L false kd prefix idreq = Ok d ->
+  let ckd := keydata_of (get_sub 3 (fields_or_nil (kd_value kd))) in
+  let mkd := keydata_of (get_sub 2 (fields_or_nil (kd_value kd))) in
+  kd_mat kd = km_public
+  /\ parse_mldsa_pub mkd pt_raw 0 = Ok PMlDsaPub /\ kd_mat mkd = km_public
+  /\ exists cd, parse_key_base L ckd pt_raw 0 = Ok cd /\ classical_public_kind cd = true /\ kd_mat ckd = km_public.
+Proof.
+  intros H. destruct (UntrustedPrefix5Proofs.composite_parts L false kd prefix idreq d H) as (M & _ & (Pm & _) & cd & Pc & C).
+  cbv zeta. split; [exact M|]. split; [exact Pm|]. split.
+  - revert Pm. unfold parse_mldsa_pub. destruct (negb (kd_mat _ =? km_public)) eqn:E; [discriminate|].
+    intros _. apply negb_false_iff, N.eqb_eq in E. exact E.
+  - exists cd. split; [exact Pc|].
+    assert (K : classical_public_kind cd = true).
+    { revert C. unfold composite_of_classical. destruct cd; try discriminate; try reflexivity;
+        try (destruct pss); intros C; apply okb_ok in C; destruct C as [C _]; discriminate C. }
+    split; [exact K | eapply classical_public_kind_label; eassumption].
+Qed.
+
+End CompositePublic.
+
+(* the witness of the finding: an ML-DSA-65 / Ed25519 composite public key whose
+   classical slot holds an Ed25519 private key (Ed25519 public key of a seed =
+   the seed, for this example's standard library) is refused at parse, by every
+   entry point *)
 Definition cw_std : stdlib :=
   mkStd (fun _ _ => false) (fun _ _ => None) (fun seed => seed) (fun _ _ => None) (fun _ _ => [])
         (fun _ _ _ _ _ => None) (fun _ _ _ _ _ _ _ _ => false) (fun _ _ => []).
 Definition cw_seed : bytes := repeat 94 32%nat.
 Definition cw_mldsa_pub_value : bytes := enc_bytes_field 2 (repeat 7 1952%nat) ++ enc_len_field 3 [8; 1].
 Definition cw_ed25519_priv_value : bytes := enc_bytes_field 2 cw_seed ++ enc_len_field 3 (enc_bytes_field 2 cw_seed).
-Definition cw_composite_value : bytes :=
+Definition cw_ed25519_pub_value : bytes := enc_bytes_field 2 cw_seed.
+Definition cw_composite_value (classical : keydata) : bytes :=
   enc_len_field 2 (ser_keydata (mkKD u_mldsa_pub cw_mldsa_pub_value km_public))
-  ++ enc_len_field 3 (ser_keydata (mkKD u_ed25519_priv cw_ed25519_priv_value km_private))
+  ++ enc_len_field 3 (ser_keydata classical)
   ++ enc_len_field 4 [8; 1; 16; 1].
-Definition cw_keyset : keyset :=
-  mkKS 9 [Some (mkPK (Some (mkKD u_composite_pub cw_composite_value km_public)) st_enabled 9 pt_tink)].
-Definition cw_handle : handle :=
-  Eval vm_compute in match handle_from_proto cw_std (Some cw_keyset) with Ok h => h | _ => [] end.
+Definition cw_keyset (classical : keydata) : keyset :=
+  mkKS 9 [Some (mkPK (Some (mkKD u_composite_pub (cw_composite_value classical) km_public)) st_enabled 9 pt_tink)].
+Definition cw_private_classical : keydata := mkKD u_ed25519_priv cw_ed25519_priv_value km_private.
+Definition cw_public_classical : keydata := mkKD u_ed25519_pub cw_ed25519_pub_value km_public.
 
-Fixpoint is_infix (needle hay : bytes) : bool :=
-  match hay with
-  | [] => match needle with [] => true | _ => false end
-  | _ :: t => beq (firstn (length needle) hay) needle || is_infix needle t
-  end.
-
-Theorem public_composite_key_can_hold_a_private_key_refuted :
-  exists e,
-    cw_handle = [e]
-    /\ has_secrets cw_keyset = false
-    /\ handle_no_secrets cw_std (Some cw_keyset) = Ok cw_handle
-    /\ ekey e = PComposite false true [] (Some cw_seed)
-    /\ out_material e = km_public
-    /\ write_no_secrets cw_handle = Ok (ser_keyset (proto_of_handle cw_handle))
-    /\ is_infix cw_seed (ser_keyset (proto_of_handle cw_handle)) = true
-    /\ prim_ok cw_std (ekey e) = Ok false.
+Theorem composite_public_key_with_private_classical_key_rejected :
+  (* the nested private key is a perfectly good Ed25519 private key on its own *)
+  parse_key_base cw_std cw_private_classical pt_raw 0 = Ok (PEd25519Priv cw_seed)
+  /\ has_secrets (cw_keyset cw_private_classical) = false
+  /\ handle_from_proto cw_std (Some (cw_keyset cw_private_classical)) = Err
+  /\ handle_no_secrets cw_std (Some (cw_keyset cw_private_classical)) = Err
+  /\ read_no_secrets cw_std (ser_keyset (cw_keyset cw_private_classical)) = Err
+  (* with the public key in the slot the same keyset is accepted, imported and exported *)
+  /\ exists h, handle_no_secrets cw_std (Some (cw_keyset cw_public_classical)) = Ok h
+        /\ write_no_secrets h = Ok (ser_keyset (cw_keyset cw_public_classical)).
 Proof.
-  eexists. split; [reflexivity|].
   split; [vm_compute; reflexivity|]. split; [vm_compute; reflexivity|]. split; [vm_compute; reflexivity|].
-  split; [vm_compute; reflexivity|]. split; [vm_compute; reflexivity|]. split; vm_compute; reflexivity.
+  split; [vm_compute; reflexivity|]. split; [vm_compute; reflexivity|].
+  exists (match handle_from_proto cw_std (Some (cw_keyset cw_public_classical)) with Ok h => h | _ => [] end).
+  split; vm_compute; reflexivity.
 Qed.
